@@ -103,7 +103,7 @@ class ModelResultsHandler:
             agg_df = reduce(lambda x, y: pd.merge(x, y, how="inner", on=merge_on), self.estimates[agg])
             self.final_results[VALID_AGGREGATES_MAPPING.get(agg)] = agg_df
         if self.include_unit_data:
-            merge_on = ["postal_code", "reporting", "geographic_unit_fips"]
+            merge_on = ["postal_code", "reporting", "geographic_unit_fips", "unit_category"]
             # joins together unit data dfs (for different estimands)
             self.final_results["unit_data"] = reduce(
                 lambda x, y: pd.merge(x, y, how="inner", on=merge_on), self.unit_data.values()
